@@ -147,8 +147,6 @@ class C14(Check):
                     ctx.violation("reverse-interval-or-tags", case, f"{a!r} vs {b!r}")
                 elif a.strand != -b.strand:
                     ctx.violation("reverse-strand", case, f"{a!r} vs {b!r}")
-        if r1.original_name != "orig" or r1.original_tags != {"Painted"}:
-            ctx.violation("reverse-drops-original-name", case, "")
         ctx.outcome(tuple(fm.rows_of(r1)))
 
     @staticmethod
@@ -181,6 +179,10 @@ class C14(Check):
         out1, out2 = io.BytesIO(), io.BytesIO()
         FastaStream(out1, fi, line_length=ll).write_scaffold(s)
         FastaStream(out2, fi, line_length=ll).write_scaffold(s.reverse())
+        out3 = io.BytesIO()
+        FastaStream(out3, fi, line_length=ll).write_scaffold(s)  # the original, streamed again after it was reversed
+        if out3.getvalue() != out1.getvalue():
+            ctx.violation("stream-original-changed-by-reversal", case, f"{out1.getvalue()!r} then {out3.getvalue()!r}")
         (h1, a), = unwrap(out1.getvalue())
         (h2, b), = unwrap(out2.getvalue())
         if h1 != h2 or b != fm.ref_revcomp(a):
